@@ -198,6 +198,12 @@ func (in *Interp) assignDecoded(dst PtrV, dstElem types.Type, src Value) {
 				for i := range f {
 					if st.Field(i).Exported() {
 						f[i] = sv.F[i]
+						// `cbor:",omitempty"`: an empty value is not on the wire, the decoder leaves the destination's field alone
+						if strings.Contains(reflectTag(st.Tag(i), "cbor"), ",omitempty") {
+							if c := cborEmpty(sv.F[i]); c != nil && !c.IsFalse() && (c.IsTrue() || in.branch(c)) {
+								f[i] = cur.F[i]
+							}
+						}
 					} else {
 						f[i] = cur.F[i]
 					}
@@ -282,4 +288,58 @@ func (in *Interp) cborUnmarshal(dataV Value, dstV Value) Value {
 func init() {
 	intrinsics[cborPkg+"Marshal"] = func(in *Interp, fr *Frame, a []Value) Value { return in.cborMarshal(a[0]) }
 	intrinsics[cborPkg+"Unmarshal"] = func(in *Interp, fr *Frame, a []Value) Value { return in.cborUnmarshal(a[0], a[1]) }
+}
+
+// reflectTag extracts the value of key from a struct tag (reflect.StructTag.Get without the reflect package's quirks).
+func reflectTag(tag, key string) string {
+	for _, part := range strings.Fields(tag) {
+		if strings.HasPrefix(part, key+":\"") {
+			v := strings.TrimPrefix(part, key+":\"")
+			if j := strings.Index(v, "\""); j >= 0 {
+				return v[:j]
+			}
+		}
+	}
+	return ""
+}
+
+// cborEmpty: the condition under which the encoder treats v as empty for omitempty (false, 0, nil, zero length).
+func cborEmpty(v Value) *Term {
+	switch x := v.(type) {
+	case nil:
+		return True
+	case *Term:
+		if x.S == BoolSort {
+			return Not(x)
+		}
+		if x.S.K == SBV {
+			return Eq(x, BVConst64(0, x.S.W))
+		}
+	case StrV:
+		return cbBool(len(x.B) == 0)
+	case SliceV:
+		return cbBool(x.C == nil || x.Len == 0)
+	case PtrV:
+		return cbBool(x.C == nil)
+	case IfaceV:
+		return cbBool(x.T == nil)
+	case MapV:
+		if x.M == nil {
+			return True
+		}
+		for _, d := range x.M.Del {
+			if !d {
+				return False
+			}
+		}
+		return True
+	}
+	return False
+}
+
+func cbBool(b bool) *Term {
+	if b {
+		return True
+	}
+	return False
 }
